@@ -13,7 +13,34 @@ thread_local! {
 }
 
 static CRASH_FD: AtomicI32 = AtomicI32::new(-1);
+/// exit status of the handler: 1 = the fault is a violation of the running property, 2 = inconclusive
+static EXIT_CODE: AtomicI32 = AtomicI32::new(1);
+
+/// Give the calling thread an alternate signal stack, so that a stack overflow (runaway
+/// recursion in the allocator) is reported by the handler instead of killing the process silently.
+pub fn altstack() {
+    thread_local! { static DONE: Cell<bool> = const { Cell::new(false) }; }
+    if DONE.with(|d| d.replace(true)) {
+        return;
+    }
+    const SZ: usize = 256 << 10;
+    unsafe {
+        let p = libc::mmap(core::ptr::null_mut(), SZ, libc::PROT_READ | libc::PROT_WRITE, libc::MAP_PRIVATE | libc::MAP_ANONYMOUS, -1, 0);
+        if p != libc::MAP_FAILED {
+            let ss = libc::stack_t { ss_sp: p, ss_flags: 0, ss_size: SZ };
+            libc::sigaltstack(&ss, core::ptr::null_mut());
+        }
+    }
+}
 static VIOLATION_LINE: OnceLock<Vec<u8>> = OnceLock::new();
+static CRASH_PATH: OnceLock<std::path::PathBuf> = OnceLock::new();
+
+/// Close (and remove, if empty) the crash file of this process.
+pub fn finish_current() {
+    if let Some(p) = CRASH_PATH.get() {
+        finish(p);
+    }
+}
 
 /// Keep `doc` alive while the case runs!
 pub fn set_current(doc: &str) {
@@ -44,8 +71,12 @@ fn report(kind: &[u8]) {
 }
 
 extern "C" fn on_fault(_sig: i32, _info: *mut libc::siginfo_t, _ctx: *mut libc::c_void) {
-    report(b"violation: memory fault (SIGSEGV/SIGBUS): access outside the metadata buffers (guard page hit)\n");
-    unsafe { libc::_exit(1) };
+    if EXIT_CODE.load(Ordering::Relaxed) == 1 {
+        report(b"violation: memory fault (SIGSEGV/SIGBUS): access outside the metadata buffers (guard page hit) or stack overflow (runaway recursion)\n");
+    } else {
+        report(b"INCONCLUSIVE: memory fault or stack overflow while executing a case (not this property's business); case saved\n");
+    }
+    unsafe { libc::_exit(EXIT_CODE.load(Ordering::Relaxed)) };
 }
 
 #[cfg(feature = "asan")]
@@ -59,14 +90,27 @@ extern "C" fn on_asan_death() {
 
 /// Install the handlers; faults are reported as violations of `prop` with the replay file `path`.
 pub fn install(prop: &str, path: &std::path::Path) {
+    install_as(prop, path, true)
+}
+
+/// `violation`: a fault is a violation of `prop` (C18: out of bounds; C09/C03/C21: the call
+/// aborted / never returned); otherwise the run ends inconclusive (exit 2).
+pub fn install_as(prop: &str, path: &std::path::Path, violation: bool) {
+    EXIT_CODE.store(if violation { 1 } else { 2 }, Ordering::Relaxed);
+    let _ = CRASH_PATH.set(path.to_path_buf());
+    altstack();
     let c = std::ffi::CString::new(path.to_str().unwrap()).unwrap();
     let fd = unsafe { libc::open(c.as_ptr(), libc::O_CREAT | libc::O_WRONLY | libc::O_TRUNC, 0o644) };
     CRASH_FD.store(fd, Ordering::Relaxed);
-    let _ = VIOLATION_LINE.set(format!("VIOLATION property={prop} replay={}\n", path.display()).into_bytes());
+    let _ = VIOLATION_LINE.set(if violation {
+        format!("VIOLATION property={prop} replay={}\n", path.display()).into_bytes()
+    } else {
+        format!("(case saved at {})\n", path.display()).into_bytes()
+    });
     unsafe {
         let mut sa: libc::sigaction = core::mem::zeroed();
         sa.sa_sigaction = on_fault as usize;
-        sa.sa_flags = libc::SA_SIGINFO;
+        sa.sa_flags = libc::SA_SIGINFO | libc::SA_ONSTACK;
         libc::sigemptyset(&mut sa.sa_mask);
         libc::sigaction(libc::SIGSEGV, &sa, core::ptr::null_mut());
         libc::sigaction(libc::SIGBUS, &sa, core::ptr::null_mut());
